@@ -42,6 +42,7 @@ def mkrec(d):
 
 
 def field_col(f):
+  if isinstance(f, tuple) and f[0] == 'short': return f[1]    # `a:` is `a: a`
   return 'col%d' % f if isinstance(f, int) else f
 
 
@@ -540,7 +541,7 @@ class Evaluator:
       return -v if e[1] == '-' else (not v)
     if t == 'isnull': return self.ev(e[1], env, scope) is None
     if t == 'list': return LV(self.ev(x, env, scope) for x in e[1])
-    if t == 'rec': return mkrec({f: self.ev(x, env, scope) for f, x in e[1]})
+    if t == 'rec': return mkrec({field_col(f): self.ev(x, env, scope) for f, x in e[1]})
     if t == 'fld':
       r = self.ev(e[1], env, scope)
       if r is None: return None
